@@ -107,6 +107,13 @@ def Case.dec (c : Case) (p : Nat) : Dec :=
   | some d => d
   | none => .exhausted
 
+/-- `Case.dec` is the oracle its table denotes (`decOfTable`, about which `C20_table_oracle` speaks) -/
+theorem Case.dec_eq (c : Case) : c.dec = decOfTable c.oracle.toList := by
+  funext p
+  unfold Case.dec decOfTable
+  rw [Array.getElem?_toList]
+  cases c.oracle[p]? <;> rfl
+
 def Case.img (c : Case) : Image := ⟨c.base, c.secs.toList, c.segs.toList⟩
 
 def showItems (items : List Item) : String :=
